@@ -70,6 +70,8 @@ func buildSerWorld(rt *rapid.T, cfg sessCfg, pre []string) *serWorld {
 		if _, err := s.update(c, []string{h0, h1}, 1, false, false); err != nil {
 			rt.Fatalf("setup update: %v", err)
 		}
+		// the clients' billing periods differ, so their per-peer charges differ
+		time.Sleep(7 * time.Second)
 	}
 	for _, p := range pre {
 		switch p {
